@@ -175,7 +175,7 @@ func runConfig(b *common.Build, st *Stats, p *program, cfg Config, dir string, n
 	plan := &world.Plan{Seed: uint64(n + 1), Iter: cfg.Iter, Sites: cfg.Sites, Clock: cfg.Clock, Pid: cfg.Pid, Host: cfg.Host}
 	var extra []string
 	if cfg.Noise {
-		extra = append(extra, "HOME="+filepath.Join(rootDir, "other home"), "USER=someone-else", "LOGNAME=someone-else", "TMPDIR="+rootDir, "LANG=de_DE.UTF-8", "TZ=Pacific/Kiritimati", "PWD="+cwd)
+		extra = append(extra, "HOME="+filepath.Join(rootDir, "other home"), "USER=someone-else", "LOGNAME=someone-else", "TMPDIR="+rootDir, "LANG=de_DE.UTF-8", "TZ=Pacific/Kiritimati", "PWD="+cwd, fmt.Sprintf("GOMAXPROCS=%d", 1+n%3))
 		os.MkdirAll(filepath.Join(rootDir, "other home"), 0777)
 	}
 	res := w.Exec(b.WireSim, cwd, plan, dir, extra, args...)
